@@ -485,7 +485,7 @@ func c10perm(r *verifhlib.Rng, xs []int) []int {
 }
 
 // forcedScan chooses the list of names a pass will walk: usually the natural listing, sometimes a
-// permutation, a partial or stale listing (absent names, duplicates).
+// permutation, a partial or stale listing (absent names); never a duplicate, as in a directory.
 func c10forced(r *verifhlib.Rng, o *c10op, snap []c10file) {
 	pres, abs := c10present(snap)
 	x := r.Intn(100)
@@ -501,9 +501,6 @@ func c10forced(r *verifhlib.Rng, o *c10op, snap []c10file) {
 		p := c10perm(r, pres)
 		if len(abs) > 0 {
 			p = append(p, abs[r.Intn(len(abs))])
-		}
-		if len(p) > 0 && r.Chance(50) {
-			p = append(p, p[r.Intn(len(p))])
 		}
 		o.useF, o.forced = true, c10perm(r, p)
 	}
